@@ -137,6 +137,7 @@ def _guarded_iter(results, ex):
 
 
 def run(ctx, per_db_quick=48, per_db_thorough=600):
+    CAP = 600.0 if ctx.thorough() else 60.0
     sc = C.Scratch()
     try:
         r = ctx.rng
@@ -162,9 +163,11 @@ def run(ctx, per_db_quick=48, per_db_thorough=600):
             carve_stage(db, None)
             bases.append((b, time.time() - t0, hashlib.sha1(clean.encode()).hexdigest()))
         per_db = per_db_thorough if ctx.thorough() else per_db_quick
+        # (200 x the clean run, measured on a loaded machine, can be a quarter of an hour: capped, so that a genuine hang
+        # costs a minute per worker in the quick tier; three of them end the run)
         jobs = []
         for bi, (b, tclean, clean_sha) in enumerate(bases):
-            limit = max(10.0, 200 * tclean)
+            limit = min(CAP, max(10.0, 200 * tclean))
             for ci, (desc, data) in enumerate(K.corruptions(b.path, r, per_db)):
                 p = sc.path(f"c{bi}_{ci}.db")
                 with open(p, "wb") as fh:
@@ -180,7 +183,7 @@ def run(ctx, per_db_quick=48, per_db_thorough=600):
             t0 = time.time()
             clean, vh, e = D.dump_history(h.db, h.wal)
             carve_stage(vh.versions[0], vh)
-            limit = max(10.0, 200 * (time.time() - t0))
+            limit = min(CAP, max(10.0, 200 * (time.time() - t0)))
             clean_sha = hashlib.sha1(clean.encode()).hexdigest()
             walb = open(h.wal, "rb").read()
             ps = int.from_bytes(walb[8:12], "big")
@@ -255,6 +258,10 @@ def run(ctx, per_db_quick=48, per_db_thorough=600):
                 ctx.oracle_fail("crash", f"the interpreter died (exit code {impl.get('exitcode')}) on a damaged file", case, "crash", "result or exception")
             else:
                 slowest = max(slowest, impl["time"])
+                if impl["time"] > 5.0:
+                    ctx.extra.setdefault("cases_over_5s", []).append(
+                        {"corruption": desc, "strict": strict, "seconds": round(impl["time"], 1), "limit": round(limit, 1),
+                         "outcome": impl["prefix"][:60], "carve": impl.get("carve")})
                 kind = impl["prefix"].split(D.SEP)[0][:40] if not impl["prefix"].startswith("ok") else "ok"
                 ctx.branch(f"impl:{kind}")
                 ctx.branch(f"corruption:{desc['kind']}")
@@ -313,7 +320,7 @@ def run(ctx, per_db_quick=48, per_db_thorough=600):
         if len(model_retry) > 40:
             ctx.notes.append(f"{len(model_retry) - 40} model time-outs not asked again")
         ctx.extra["slowest_parse_s"] = round(slowest, 2)
-        ctx.extra["time_limit_rule"] = "max(10 s, 200 x clean parse time)"
+        ctx.extra["time_limit_rule"] = "min(cap, max(10 s, 200 x clean parse time)); cap 60 s quick / 600 s thorough; a time-out is judged again alone"
     finally:
         sc.close()
 
